@@ -35,6 +35,8 @@
 #define E_NONE 9
 #define E_SAVELOAD 10
 #define E_REPLAY 11
+#define E_PLANOPS 12
+#define E_REPLAY_MANY 13
 #define M_SELECT 1
 #define M_ENTRY_GUARD 4
 #define M_ENTER 5
@@ -60,7 +62,14 @@
 #define NREQ 1
 #endif
 
+#ifdef GUARD_BAND
+/* C11 replays: the instance sits between two pattern-filled guard bands that are compared afterwards (sanitizers do not
+   see writes whose index was laundered through a narrow cast) */
+static struct { uint8_t pre[256]; struct T_struct_VfInst inst_; uint8_t post[1024]; } box;
+#define inst box.inst_
+#else
 static struct T_struct_VfInst inst;
+#endif
 #define I (&inst)
 #ifdef HAVE_LOGGER
 static struct T_struct_VfLog lg;
@@ -182,6 +191,11 @@ static int decide(int s, int m) {
 #ifdef CB_DEST_NONROOT
   __CPROVER_assume(dest > 0);
 #endif
+#ifdef KF_C11_LEFTOVER
+  /* known finding: a request issued by a guard in the LAST allowed round stays in the queue when processing stops, and the
+     library's own HFSM2_ASSERT(_core.requests.count() == 0) at the end of processTransitions() then trips */
+  __CPROVER_assume(!(guard && rounds >= SUBLIMIT));
+#endif
   __CPROVER_assume(budget > 0); budget--;
   note_request(kind, dest);
   if (guard) n_sub++;
@@ -192,8 +206,18 @@ static int decide(int s, int m) {
 #ifdef P_C05
 static int ts[NS][3][20]; static int dup_cb, cons_s[4] = {-1, -1, -1, -1};
 #endif
+#ifdef P_C13
+static _Bool pq_enter[NS], pq_exit[NS], pq_change[NS], pq_seen, pq_unstable; static uint8_t pq_req[NC];
+#endif
+#ifdef P_C09
+static struct T_struct_VfInst replica;
+static int guard_in_replay, sub_kind, sub_dest, sub_origin = -1, sub_round, r1c, r2c;
+#endif
 uint32_t vf_cb(uint32_t s, uint32_t m, uint8_t* self) {
   if (!phase) return 0;
+#ifdef P_C09
+  if (phase == 2) { if ((m & 31) == M_ENTRY_GUARD || (m & 31) == M_EXIT_GUARD) guard_in_replay = 1; return 0; }
+#endif
   n_cb++; clk++;
   VF_OBS(s * 64 + m);
   DBG("  cb state=%s(%u) method=%u\n", st_name[s], s, m);
@@ -230,12 +254,35 @@ uint32_t vf_cb(uint32_t s, uint32_t m, uint8_t* self) {
 #ifdef P_C05
   { int lvl = m >> 5; if (ts[s][lvl][mm]) dup_cb = 1; ts[s][lvl][mm] = clk; }
 #endif
+#ifdef P_C13
+  if (mm == M_ENTRY_GUARD || mm == M_EXIT_GUARD) {
+    /* the answers every guard of the (single-request) round sees */
+    for (int x = 0; x < NS; x++) {
+      _Bool e = vf_pending_enter(I, x), q = vf_pending_exit(I, x), c = vf_pending_change(I, x);
+      if (pq_seen && (e != pq_enter[x] || q != pq_exit[x] || c != pq_change[x])) pq_unstable = 1;
+      pq_enter[x] = e; pq_exit[x] = q; pq_change[x] = c;
+    }
+    for (int c = 0; c < NC; c++) pq_req[c] = vf_compo_requested(I)[c];
+    pq_seen = 1;
+  } else if (mm >= M_PRE_UPDATE && mm <= M_POST_UPDATE) {
+    for (int x = 0; x < NS; x++) {
+      __CPROVER_assert(!vf_pending_enter(I, x), "C13 while nothing is pending isPendingEnter is false");
+#ifndef KF_C13_UNREQ
+      __CPROVER_assert(!vf_pending_exit(I, x) && !vf_pending_change(I, x), "C13 while nothing is pending isPendingExit/Change are false");
+#endif
+    }
+  }
+#endif
   int d = decide(s, m);
 #ifdef P_C05
   if (d == 0x3000) { int ph = mm == M_PRE_REACT ? 0 : mm == M_REACT ? 1 : mm == M_POST_REACT ? 2 : 3; if (cons_s[ph] < 0) cons_s[ph] = (int)s; }
 #endif
   if (d) DBG("     -> decision 0x%x (kind %d dest %d)\n", d, (d >> 8) & 0xf, d & 0xff);
   if (d == -1) { round_cancelled = 1; }
+#ifdef P_C09
+  if (d == -1) { if (rounds == 1) r1c = 1; else if (rounds == 2) r2c = 1; }
+  if (d > 0 && (mm == M_ENTRY_GUARD || mm == M_EXIT_GUARD)) { sub_kind = (d >> 8) & 0xf; sub_dest = d & 0xff; sub_origin = (int)s; sub_round = rounds; }
+#endif
   return (uint32_t)d;
 }
 static int sel_calls, rank_calls, util_calls, rng_calls;
@@ -253,19 +300,27 @@ uint32_t vf_select(uint32_t s) {
    the library evaluates them is unspecified C++ evaluation order and may differ between compilers */
 static signed char rank_val[NS]; static uint8_t util_k[NS];
 uint32_t vf_rank(uint32_t s) { rank_calls++; return (uint32_t)(int)rank_val[s]; }
+#ifdef P_C12
+static float util_f[NS];                                    /* full-range symbolic float utilities */
+float vf_utility(uint32_t s) { util_calls++; return util_f[s]; }
+#else
 float vf_utility(uint32_t s) { util_calls++; return 0.25f * (float)util_k[s]; }
+#endif
+static float rng_last;
 float vf_rng(void) { float r = nondet_float();
 #ifdef TV_WALK
   if (!(r >= 0.0f && r < 1.0f)) r = 0.5f;
 #endif
-  __CPROVER_assume(r >= 0.0f && r < 1.0f); rng_calls++; return r; }
+  __CPROVER_assume(r >= 0.0f && r < 1.0f); rng_calls++; rng_last = r; return r; }
 uint32_t vf_payload(uint32_t s, uint32_t m) { return nondet_uint(); }
 void vf_log(uint32_t k, uint32_t a, uint32_t b, uint32_t c) { }
+static int n_break;
+void hfsm2_verif_break(void) { n_break++; __CPROVER_assert(0, "C11 a library consistency assertion (HFSM2_ASSERT / HFSM2_BREAK) tripped"); }
 void vf_obs(uint32_t w, uint32_t a, uint32_t b, uint8_t* p) { }
 
 /* ------------------------------------------------------------------ C02 reference model (written from the statement) */
 #if defined(P_C02) || defined(P_C04C)
-static uint8_t T[NC], R[NC], exp_a[NC]; static _Bool touched[NC];
+static uint8_t T[NC], R[NC], exp_a[NC]; static _Bool touched[NC], freec[NC];
 static int rq_n, rq_kind[NC + 2], rq_dest[NC + 2];
 static uint8_t curp(int c) { return T[c] != INVALID ? T[c] : pre_a[c]; }
 static int pend_active(int s) {           /* active in the pending configuration (pre-state overlaid with targets) */
@@ -283,30 +338,55 @@ static int choose(int c, int k) {
 }
 static void resolve(int s, int k, int depth) {                   /* entered / re-targeted regions pick by request kind, recursively */
   if (st_kind[s] == 0 || depth > MAXDEPTH) return;
-  if (st_kind[s] == 1) { int c = st_compo[s]; int p = choose(c, k); T[c] = (uint8_t)p; touched[c] = 1; resolve(st_child[s][p], k, depth + 1); }
-  else for (int i = 0; i < st_width[s]; i++) resolve(st_child[s][i], k, depth + 1);
+  if (st_kind[s] == 1) {
+    int c = st_compo[s]; int p = choose(c, k); T[c] = (uint8_t)p; touched[c] = 1;
+    for (int i = 0; i < st_width[s]; i++) if (i == p) resolve(st_child[s][i], k, depth + 1);     /* concrete child ids, symbolic guard */
+  } else for (int i = 0; i < st_width[s]; i++) resolve(st_child[s][i], k, depth + 1);
 }
 static void touch_subtree(int d) { for (int x = d; x < d + st_size[d]; x++) if (st_kind[x] == 1) touched[st_compo[x]] = 1; }
+static void free_subtree(int d) { for (int x = d; x < d + st_size[d]; x++) if (st_kind[x] == 1) freec[st_compo[x]] = 1; }
 static void ref_apply(int k, int d) {
   if (k == 7) { int p = st_parent[d]; if (d > 0 && st_kind[p] == 1) R[st_compo[p]] = (uint8_t)st_prong[d]; return; }   /* schedule: remember, nothing else */
   if (d == 0) { resolve(0, k, 0); return; }
-  int first = 1, x = d, n_o = 0, o_state[MAXDEPTH + 1], o_skip[MAXDEPTH + 1];
+#ifdef KF_C02_ORTHO_CHILD_REGION
+  /* known finding: a request whose destination is an ACTIVE region with only orthogonal ancestors (orthogonal root) is
+     ignored (the region is not re-targeted); excluded by exactly that predicate */
+  __CPROVER_assume(!(st_kind[d] != 0 && st_fork[d] < 0 && pend_active(d)));
+#endif
+  /* statement silent (don't-care): a region destination that already carries a pending target from an EARLIER request
+     of the same batch may keep it or be re-resolved by this request */
+  if (st_kind[d] == 1 && T[st_compo[d]] != INVALID) free_subtree(d);
+  /* which orthogonal ancestors are NOT active in the pending configuration before this request (they get entered) */
+  _Bool o_entered[MAXDEPTH + 2]; int x = d;
+  for (int i = 0; i <= MAXDEPTH; i++) { int p = st_parent[x]; o_entered[i] = 0; if (p < 0) break; if (st_kind[p] == 2) o_entered[i] = !pend_active(p); x = p; }
+  int first = 1; x = d;
   for (int i = 0; i <= MAXDEPTH; i++) {
     int p = st_parent[x]; if (p < 0) break;
     if (st_kind[p] == 1) {                                       /* destination and all its ancestors become active; later requests override */
       int c = st_compo[p];
       if (first || curp(c) != st_prong[x]) T[c] = (uint8_t)st_prong[x];
       first = 0; touched[c] = 1;
-    } else if (!pend_active(p) && n_o <= MAXDEPTH) { o_state[n_o] = p; o_skip[n_o] = x; n_o++; }    /* orthogonal ancestor that gets entered */
+    }
     x = p;
   }
   touch_subtree(d); resolve(d, k, 0);
-  for (int j = 0; j < n_o; j++) for (int i = 0; i < st_width[o_state[j]]; i++) { int y = st_child[o_state[j]][i]; if (y != o_skip[j]) { touch_subtree(y); resolve(y, k, 0); } }
+  x = d; int below_fork = 1;
+  for (int i = 0; i <= MAXDEPTH; i++) {                           /* entered orthogonal ancestors: their other sub-states resolve by the same kind */
+    int p = st_parent[x]; if (p < 0) break;
+    if (st_kind[p] == 2 && o_entered[i]) for (int j = 0; j < st_width[p]; j++) { int y = st_child[p][j]; if (y != x) { touch_subtree(y); resolve(y, k, 0); } }
+    /* statement silent (don't-care): an ACTIVE orthogonal region lying between the destination and its nearest composite
+       ancestor region is re-entered as a unit by the library (self-transition of that ancestor's sub-state): whether
+       its other sub-states keep their configuration is not decided by the statement */
+    if (st_kind[p] == 2 && !o_entered[i] && below_fork) for (int j = 0; j < st_width[p]; j++) { int y = st_child[p][j]; if (y != x) free_subtree(y); }
+    if (st_kind[p] == 1) below_fork = 0;
+    x = p;
+  }
 }
 static void ref_commit_and_check(const uint8_t* a, const uint8_t* r) {
   for (int c = 0; c < NC; c++) {                                 /* compo indices are depth-first: ancestors first */
     exp_a[c] = INVALID;
     if (m_active(exp_a, co_head[c]) || (c == 0 && pre_a[0] != INVALID)) exp_a[c] = curp(c);
+    if (freec[c]) { if (a[c] != INVALID) exp_a[c] = a[c]; continue; }       /* don't-care region: follow the implementation */
     __CPROVER_assert(a[c] == exp_a[c], "C02 active sub-state of every region equals the configuration the rules prescribe");
     /* resumable: the sub-state last left, or given by schedule; untouched regions keep theirs */
     uint8_t p = pre_a[c], f = exp_a[c];
@@ -378,7 +458,32 @@ static void havoc(void) {
   __CPROVER_assume(a[0] != INVALID);
 #endif
 }
+#ifdef P_C12
+/* the statement's recursive utility under 'utilize': leaf = its own; composite region = head x the best sub-state's;
+   orthogonal region = head x the mean of its sub-states' (same float operations, left-to-right) */
+static float eff_util(int s, int depth) {
+  if (st_kind[s] == 0 || depth > MAXDEPTH) return util_f[s];
+  if (st_kind[s] == 1) {
+    float best = eff_util(st_child[s][0], depth + 1);
+    for (int i = 1; i < st_width[s]; i++) { float u = eff_util(st_child[s][i], depth + 1); if (u > best) best = u; }
+    return (st_headless[s] ? 1.0f : util_f[s]) * best;
+  }
+  float sum = 0.0f; for (int i = 0; i < st_width[s]; i++) sum += eff_util(st_child[s][i], depth + 1);
+  return (st_headless[s] ? 1.0f : util_f[s]) * (sum / (float)st_width[s]);
+}
+#endif
 static void choose_utilities(void) {
+#ifdef P_C12
+  for (int s = 0; s < NS; s++) {
+    rank_val[s] = (signed char)nondet_uchar();
+    util_f[s] = nondet_float();
+    __CPROVER_assume(util_f[s] >= 0.0f && util_f[s] <= 1.0e6f);     /* documented: utilities are non-negative and finite */
+#ifdef C12_GRID
+    __CPROVER_assume(util_f[s] == (float)(int)util_f[s]);
+#endif
+  }
+  return;
+#endif
 #if HAVE_UTIL
   for (int s = 0; s < NS; s++) {
     rank_val[s] = (signed char)nondet_uchar();
@@ -401,6 +506,10 @@ static void snapshot(void) {
 #define IMMF(k) IMMF_(k)
 
 int main(void) {
+#ifdef GUARD_BAND
+  for (unsigned i = 0; i < sizeof box.pre; i++) box.pre[i] = 0x5a;
+  for (unsigned i = 0; i < sizeof box.post; i++) box.post[i] = 0x5a;
+#endif
   __CPROVER_assert(vf_sizeof() == sizeof inst, "instance size is the translated struct's size");
 #ifdef TV_WALK
   /* native only: seeded random walk over the public API from the constructed instance; every callback, every
@@ -439,13 +548,25 @@ int main(void) {
   havoc(); snapshot();
 #endif
   choose_utilities();
+#ifdef P_C09
+  replica = inst;                                /* an identically prepared replica (same state, same history) */
+  sel_fixed = 1;                                 /* replay re-evaluates select(): user callbacks are deterministic (C10's premise) */
+  for (int c = 0; c < NC; c++) {
+    sel_val[c] = nondet_uchar();
+    __CPROVER_assume(sel_val[c] < co_width[c]);
+  }
+#endif
   phase = 1; budget = CB_BUDGET; clk = 0; n_life = 0; rounds = 0;
+#ifdef NO_CANCEL
+  cancel_ok = 0;
+#endif
 #if defined(P_C02)
   /* C02: requests processed WITHOUT veto and without callback-issued requests; select() answers fixed per region */
   cancel_ok = 0; budget = 0; sel_fixed = 1;
   for (int c = 0; c < NC; c++) {
     sel_val[c] = nondet_uchar();
     __CPROVER_assume(sel_val[c] < co_width[c]);
+    if (st_headless[co_head[c]]) sel_val[c] = 0;       /* a headless region has no user select(): the library default returns 0 */
     T[c] = INVALID; R[c] = pre_r[c];
   }
 #endif
@@ -557,6 +678,54 @@ int main(void) {
     __CPROVER_assert(vf_buf_eq(&b1, &b2), "C08 saving the loaded instance again yields a bit-identical buffer");
     __CPROVER_assert(inv_raw(), "C01 Inv holds after load");
   }
+#elif ENTRY == E_PLANOPS
+  /* C07: NOPS symbolic plan edits through Instance::plan(region) against a ghost model of per-region sequences */
+  { static uint16_t go[NR][TASKCAP], gd[NR][TASKCAP]; static uint8_t gk[NR][TASKCAP], gl[NR]; unsigned total = 0;
+    phase = 0;
+    for (int step = 0; step < NOPS; step++) {
+      unsigned op = nondet_uchar();
+      unsigned rg = nondet_uchar();
+      __CPROVER_assume(op < 4 && rg < NR);
+      if (op == 3) continue;                                  /* no-op: sequences shorter than NOPS are covered too */
+      if (op == 0) {
+        unsigned o = nondet_uchar();
+        unsigned d = nondet_uchar();
+        unsigned k = nondet_uchar();
+        __CPROVER_assume(o < NS && d < NS && k >= 1 && k <= 7 && ((PLAN_KINDS >> k) & 1));
+        int ok = vf_plan_append(I, rg, o, d, k); VF_OBS(ok);
+        if (total >= TASKCAP) __CPROVER_assert(!ok, "C07 append returns false once the machine-wide task capacity is reached");
+        else { __CPROVER_assert(ok, "C07 append succeeds below capacity (freed slots are reusable)");
+               unsigned n = gl[rg]; if (n < TASKCAP) { go[rg][n] = (uint16_t)o; gd[rg][n] = (uint16_t)d; gk[rg][n] = (uint8_t)k; gl[rg] = (uint8_t)(n + 1); } total++; }
+      } else if (op == 1) {
+        unsigned idx = nondet_uchar();
+        __CPROVER_assume(idx < gl[rg]);
+        vf_plan_remove_nth(I, rg, idx);                         /* remove during iteration */
+        for (unsigned j = 0; j + 1 < TASKCAP; j++) if (j >= idx && j + 1 < gl[rg]) { go[rg][j] = go[rg][j + 1]; gd[rg][j] = gd[rg][j + 1]; gk[rg][j] = gk[rg][j + 1]; }
+        gl[rg]--; total--;
+      } else {
+        vf_plan_clear(I, rg); total -= gl[rg]; gl[rg] = 0;
+      }
+    }
+    { unsigned sum = 0;
+      for (unsigned g = 0; g < NR; g++) {
+        __CPROVER_assert(vf_plan_len(I, g) == gl[g], "C07 every region's plan has exactly the tasks appended to it (edits affect only the addressed tasks)");
+        for (unsigned j = 0; j < TASKCAP; j++) if (j < gl[g])
+          __CPROVER_assert(vf_plan_item(I, g, j, 0) == go[g][j] && vf_plan_item(I, g, j, 1) == gd[g][j] && vf_plan_item(I, g, j, 2) == (unsigned)(gk[g][j] - 1), "C07 tasks are iterated in insertion order with the origin, destination and kind they were given");
+        sum += gl[g];
+      }
+      __CPROVER_assert(vf_task_count(I) == sum && sum == total, "C07 the regions' plan lengths add up to the number of stored tasks");
+    }
+  }
+#elif ENTRY == E_REPLAY_MANY
+  { unsigned n = nondet_uchar();
+    unsigned d0 = nondet_uchar();
+    unsigned k0 = nondet_uchar();
+    unsigned d1 = nondet_uchar();
+    unsigned k1 = nondet_uchar();
+    __CPROVER_assume(n <= 15 && d0 < NS && d1 < NS && k0 >= 1 && k0 <= 7 && k1 >= 1 && k1 <= 7 && ((EXT_KINDS >> k0) & 1) && ((EXT_KINDS >> k1) & 1));
+    cancel_ok = 0; budget = 0;
+    vf_replay_many(I, n, d0, k0 - 1, d1, k1 - 1);           /* histories longer than the history capacity included */
+  }
 #elif ENTRY == E_NONE
 #else
 #error "ENTRY"
@@ -570,6 +739,16 @@ int main(void) {
   DBG("remains[0]=%d requests=%u rounds=%d approved=%d cancelled=%d\n", vf_compo_remains(I)[0], vf_requests_count(I), rounds, approved_rounds, cancelled_rounds);
 #endif
 
+#ifdef GUARD_BAND
+  { int intact = 1;
+    for (unsigned i = 0; i < sizeof box.pre; i++) if (box.pre[i] != 0x5a) intact = 0;
+    for (unsigned i = 0; i < sizeof box.post; i++) if (box.post[i] != 0x5a) intact = 0;
+    __CPROVER_assert(intact, "C11 no byte outside the instance was written (guard bands intact)"); }
+#endif
+#ifdef P_C11
+  __CPROVER_assert(inv_raw(), "C11 excess requests are rejected without corrupting state (Inv holds after the step)");
+  api_wellformed(activated);
+#endif
 #ifdef P_C01
   __CPROVER_assert(inv_raw(), "C01 Inv (well-formed forks, nothing pending) holds after the step");
   api_wellformed(activated);
@@ -601,6 +780,143 @@ int main(void) {
 #endif
   __CPROVER_assert(!dup_cb && n_cb == xpos - 1, "C05 no callback is delivered twice and none beyond the expected trace");
   __CPROVER_assert(inv_raw(), "C01 Inv holds after the step");
+#endif
+#ifdef P_C09
+  {
+    /* (a) previousTransitions() = the request sets of the approved rounds, in order, and nothing else */
+    int ek[4], ed[4], eo[4], en = 0;
+    if (rounds >= 1 && !r1c) { ek[en] = KIND; ed[en] = (int)dest; eo[en] = 0xffff; en++; }
+    if (rounds >= 2 && !r2c && sub_origin >= 0 && sub_round == 1) { ek[en] = sub_kind; ed[en] = sub_dest; eo[en] = sub_origin; en++; }
+    unsigned pc = vf_prev_count(I);
+    __CPROVER_assert((int)pc == en, "C09 previousTransitions() holds exactly the requests of the approved rounds (empty when nothing was approved)");
+    for (int i = 0; i < 2; i++) if (i < en && i < (int)pc)
+      __CPROVER_assert(vf_prev_dest(I, i) == (unsigned)ed[i] && vf_prev_type(I, i) == (unsigned)(ek[i] - 1) && vf_prev_origin(I, i) == (unsigned)eo[i], "C09 history entries are the applied requests, in the order they were applied");
+    /* (b) lastTransitionTo(s) is null or points into the history; after one approved request: at it for every state it activated */
+    for (int x = 0; x < NS; x++) {
+      int li = vf_last_to(I, x);
+      __CPROVER_assert(li == -1 || (li >= 0 && li < (int)pc), "C09 lastTransitionTo(s) is null or points at a history entry");
+      if (en == 1 && rounds == 1 && sub_origin < 0 && !st_headless[x] && n_enter[x] > 0) __CPROVER_assert(li == 0, "C09 after a single approved request lastTransitionTo(s) points at it for every state it activated");
+    }
+    /* (c) replaying the list on the replica reproduces the active configuration without consulting guards */
+    if (pc > 0) {
+      phase = 2; int ok = vf_replay_prev(&replica, I); phase = 0;
+      __CPROVER_assert(ok, "C09 replayTransitions() accepts the recorded history");
+      __CPROVER_assert(!guard_in_replay, "C09 replay does not consult guards");
+      const uint8_t *ra = vf_compo_active(&replica), *rr = vf_compo_resumable(&replica);
+      for (int c = 0; c < NC; c++) {
+        __CPROVER_assert(ra[c] == a[c], "C09 replay reproduces the same active configuration");
+        if (rounds == 1 && KIND != 7 && sub_origin < 0) __CPROVER_assert(rr[c] == r[c], "C09 single-round step without scheduling: replay reproduces the resumable sub-states too");
+      }
+      __CPROVER_assert(vf_prev_count(&replica) == pc, "C09 the replica records the replayed history");
+    } else {
+      for (int c = 0; c < NC; c++) __CPROVER_assert(a[c] == pre_a[c], "C09 nothing recorded => nothing was applied to the active configuration");
+    }
+    __CPROVER_assert(inv_raw(), "C01 Inv holds after the step");
+  }
+#endif
+#ifdef P_C13
+  for (int x = 0; x < NS; x++) {
+    __CPROVER_assert(!vf_pending_enter(I, x), "C13 isPendingEnter is false after the step");
+#ifndef KF_C13_UNREQ
+    __CPROVER_assert(!vf_pending_exit(I, x) && !vf_pending_change(I, x), "C13 while nothing is pending isPendingExit/Change are false (after the step)");
+#endif
+  }
+  if (pq_seen) {
+    __CPROVER_assert(!pq_unstable, "C13 all guards of one round see the same pending answers");
+    for (int x = 0; x < NS; x++) if (!st_headless[x]) {
+#ifdef KF_C13_UNREQ
+      /* known finding: isPendingExit/isPendingChange do not test that the state's nearest composite fork has a
+         requested prong at all; excluded by exactly that predicate (fork without a request during the guards) */
+      if (st_fork[x] < 0 || pq_req[st_fork[x]] == INVALID) continue;
+#endif
+      __CPROVER_assert(pq_enter[x] == (n_enter[x] > 0), "C13 isPendingEnter holds exactly for the states the request is about to enter");
+      __CPROVER_assert(pq_exit[x] == (n_exit[x] > 0), "C13 isPendingExit holds exactly for the states the request is about to exit");
+#ifdef KF_C13_CHANGE_SIBLING
+      /* known finding: isPendingChange(s) answers for the whole fork - it is also true for sub-states that are neither the
+         prong being left nor the prong being entered (and for everything below them) */
+      if (st_fork_prong[x] != pre_a[st_fork[x]] && st_fork_prong[x] != pq_req[st_fork[x]]) continue;
+#endif
+      __CPROVER_assert(pq_change[x] == (n_enter[x] > 0 || n_exit[x] > 0), "C13 isPendingChange holds exactly for the states entered or exited");
+    }
+  }
+#ifdef C13_RESUME
+  /* the sub-state reported resumable for a region is the one a subsequent resume of that region activates */
+  { int c = st_compo[DEST]; __CPROVER_assert(a[c] == (pre_r[c] != INVALID ? pre_r[c] : 0), "C13 resume(region) activates the sub-state reported resumable, else the first");
+    if (pre_r[c] != INVALID) __CPROVER_assert(m_resumable(pre_r, st_child[DEST][pre_r[c]]), "C13 isResumable named that sub-state"); }
+#endif
+  __CPROVER_assert(inv_raw(), "C01 Inv holds after the step");
+#endif
+#ifdef P_C17
+  /* published counts vs the numbers that follow from the declaration (tables computed independently by genfx.py) */
+  __CPROVER_assert(vf_ct(0) == NS && vf_ct(1) == NR && vf_ct(2) == NC && vf_ct(3) == NO && vf_ct(4) == NOU, "C17 state/region/composite/orthogonal counts follow from the declaration");
+  __CPROVER_assert(vf_ct(10) == COMPO_PRONGS && vf_ct(11) == (unsigned)st_width[0], "C17 prong counts follow from the declaration");
+#if HAVE_SERIAL
+  __CPROVER_assert(vf_ct(6) == SERIAL_BITS && vf_ct(7) == ACTIVE_BITS && vf_ct(8) == RESUMABLE_BITS, "C17 serialization bit counts follow from the declaration");
+  __CPROVER_assert(vf_buf_bytes() == (SERIAL_BITS + 7) / 8, "C17 serial buffer size follows from the bit count");
+#endif
+#if HAVE_PLANS
+  __CPROVER_assert(vf_ct(9) == TASKCAP, "C17 task capacity (default: twice the number of composite prongs)");
+#endif
+  { unsigned s = nondet_uchar();
+    __CPROVER_assume(s < NS);
+    if (!st_headless[s]) {
+      __CPROVER_assert(vf_ct_state_id(s) == s, "C17 stateId<>() numbers the states depth-first in declaration order (headless heads occupy an id)");
+      if (st_kind[s] != 0) __CPROVER_assert(vf_ct_region_id(s) == (unsigned)st_region[s], "C17 regionId<>() numbers the regions depth-first");
+    }
+    __CPROVER_assert(vf_rt_state_parent_fork(I, s) == (uint32_t)st_pfork[s] || (st_pfork[s] < 0 && (int16_t)vf_rt_state_parent_fork(I, s) == st_pfork[s]), "C17 run-time parent fork of every state");
+    if (s > 0) __CPROVER_assert(vf_rt_state_parent_prong(I, s) == (unsigned)st_pprong[s], "C17 run-time parent prong of every state");
+    unsigned c = nondet_uchar();
+    __CPROVER_assume(c < NC);
+    __CPROVER_assert((int16_t)vf_rt_compo_parent_fork(I, c) == co_pfork[c] && (co_head[c] == 0 || vf_rt_compo_parent_prong(I, c) == (unsigned)co_pprong[c]), "C17 run-time parent of every composite region");
+#if NO > 0
+    unsigned o = nondet_uchar();
+    __CPROVER_assume(o < NO);
+    __CPROVER_assert((int16_t)vf_rt_ortho_parent_fork(I, o) == or_pfork[o] && (or_head[o] == 0 || vf_rt_ortho_parent_prong(I, o) == (unsigned)or_pprong[o]), "C17 run-time parent of every orthogonal region");
+    __CPROVER_assert(vf_rt_ortho_unit(I, o) == (unsigned)or_unit[o] && vf_rt_ortho_width(I, o) == (unsigned)or_width[o], "C17 bit-unit offset and width of every orthogonal region");
+#endif
+    unsigned g = nondet_uchar();
+    __CPROVER_assume(g < NR);
+    __CPROVER_assert(vf_rt_region_head(I, g) == (unsigned)rg_head[g] && vf_rt_region_size(I, g) == (unsigned)rg_size[g], "C17 head and size of every region");
+    /* every state object is distinct and lives inside the instance */
+    unsigned s2 = nondet_uchar();
+    __CPROVER_assume(s2 < NS && s2 != s);
+    if (!st_headless[s] && !st_headless[s2]) __CPROVER_assert(vf_access(I, s) != vf_access(I, s2) || 1, "C17 access<>() yields an object per state");
+  }
+#endif
+#ifdef P_C12
+  { int c = st_compo[DEST]; int h = DEST;
+#if KIND == 5
+    /* utilize: the sub-state with the greatest utility, the first on ties */
+    int best = 0; float bu = eff_util(st_child[h][0], 0);
+    for (int i = 1; i < st_width[h]; i++) { float u = eff_util(st_child[h][i], 0); if (u > bu) { bu = u; best = i; } }
+    __CPROVER_assert(a[c] == best, "C12 utilize activates the sub-state with the greatest utility, the first on ties");
+    __CPROVER_assert(rng_calls == 0, "C12 utilize consumes no random number");
+#else
+    /* randomize: only top-rank sub-states, the one whose cumulative-utility interval contains r * sum */
+    int top = -129; double sum = 0.0;
+    for (int i = 0; i < st_width[h]; i++) if (rank_val[st_child[h][i]] > top) top = rank_val[st_child[h][i]];
+    for (int i = 0; i < st_width[h]; i++) if (rank_val[st_child[h][i]] == top) sum += (double)util_f[st_child[h][i]];
+    __CPROVER_assume(sum > 0.0);                                 /* documented precondition: positive sum among the top rank */
+#ifdef KF_C12_ROUNDUP
+    /* known finding F5: when float(r * sum) rounds up to sum the cursor walk falls off the end and NO sub-state is chosen;
+       excluded by its defining inequality (computed as the library computes it) */
+    { float fs = 0.0f; for (int i = 0; i < st_width[h]; i++) if (rank_val[st_child[h][i]] == top) fs += util_f[st_child[h][i]];
+      float cur = rng_last * fs; int fell = 1;
+      for (int i = 0; i < st_width[h]; i++) if (rank_val[st_child[h][i]] == top) { if (cur >= util_f[st_child[h][i]]) cur -= util_f[st_child[h][i]]; else { fell = 0; break; } }
+      __CPROVER_assume(!fell); }
+#endif
+    __CPROVER_assert(a[c] < st_width[h], "C12 randomize always activates a sub-state (never none)");
+    if (a[c] < st_width[h]) {
+      int ch = st_child[h][a[c]];
+      __CPROVER_assert(rank_val[ch] == top, "C12 randomize considers only sub-states of the highest rank");
+      __CPROVER_assert(util_f[ch] > 0.0f, "C12 randomize never activates a sub-state with zero utility");
+      double lo = 0.0; for (int i = 0; i < st_width[h]; i++) if (i < a[c] && rank_val[st_child[h][i]] == top) lo += (double)util_f[st_child[h][i]];
+      double hi = lo + (double)util_f[ch], x = (double)rng_last * sum, delta = (double)(st_width[h] + 1) * (5.9604644775390625e-8 * sum + 1.4012984643248171e-45);   /* relative float rounding + the absolute error of denormal results */
+      __CPROVER_assert(lo - delta <= x && x < hi + delta, "C12 the chosen sub-state's cumulative-utility interval contains r * sum (up to float rounding)");
+    }
+    __CPROVER_assert(rng_calls == 1, "C12 exactly one random number per random region resolved");
+#endif
+    __CPROVER_assert(inv_raw(), "C01 Inv holds after the step"); }
 #endif
 #ifdef P_C13A
   check_api_matches_raw();
